@@ -108,26 +108,31 @@ def build(src):
     u.add(F("dl_get", DL, r"std::shared_ptr<void> get\(\) const", "void dl_get(struct nsptr *ret, const struct dl *self)", P,
             rules=[Rule("D3.rvo-copy", r"return\s+handle;", "nsptr_copy(ret, &self->handle); return;")], must_fire=["D3.rvo-copy"]))
     # ---- symbol ----
-    s = src.find(SYM, r"symbol\(std::shared_ptr<void> library, const std::string& name\)")
+    SYM_SIG = r"symbol\((?:const\s+)?std::shared_ptr<void>\s*&?\s*library, const std::string& name\)"
+    s = src.find(SYM, SYM_SIG)
     if [n for n, _ in s["init"]] != ["handle", "library"] or s["init"][0][1] != "nullptr" or s["init"][1][1] != "library":
         raise ExtractionError("symbol: mem-initialiser list changed: %r" % (s["init"],))
-    mem = [m[1] for m in src.members(SYM, r"class\s+symbol<Ret\(Args\.\.\.\)>")]
-    if mem != ["library"] and mem != ["handle", "library"]:
-        pass
+    mem_types = {m[1]: m[0] for m in src.members(SYM, r"class\s+symbol<Ret\(Args\.\.\.\)>")}
+    # rule D1.member-init distinguishes an OWNING member (std::shared_ptr<void> library: copy-constructed, one more owner) from a
+    # REFERENCE member (std::shared_ptr<void>& library: bound to the argument, no owner is added)
+    lib_is_ref = "&" in mem_types.get("library", "")
+    u.static_facts.append("symbol::library is declared `%s`: %s" % (mem_types.get("library", "?"), "a reference (owns nothing)" if lib_is_ref else "an owning copy of the handle"))
 
     class SymInit:
         name = "D1.member-init"
 
         def apply(self, text):
+            if lib_is_ref:
+                return "\n    self->handle = 0; self->library = *library;   /* handle(nullptr), library(library): reference member bound to the argument */\n" + text, 1
             return "\n    self->handle = 0; nsptr_copy(&self->library, library);   /* handle(nullptr), library(library) */\n" + text, 1
-    f = u.add(F("sym_ctor", SYM, r"symbol\(std::shared_ptr<void> library, const std::string& name\)",
+    f = u.add(F("sym_ctor", SYM, SYM_SIG,
                 "void sym_ctor(struct symbol *self, const struct nsptr *library, const struct nstr *name)", P,
                 pre=[SymInit()],
                 rules=[Rule("D7.dlsym", r"\*\(void\*\*\)\(&this->handle\)\s*=\s*dlsym\(library\.get\(\),\s*name\.c_str\(\)\);", "self->handle = nitro_dlsym(nsptr_get(library), name);"),
                        Rule("D7.dlerror", r"\bdlerror\(\)", "nitro_dlerror()"),
                        Rule("D7.null", r"\bnullptr\b", "0")],
                 must_fire=["D7.dlsym"]))
-    f.cleanup = "nsptr_release(&self->library)"
+    f.cleanup = "" if lib_is_ref else "nsptr_release(&self->library)"
     f.custom_init = True
     u.add(F("sym_call", SYM, r"Ret operator\(\)\(Args\.\.\. args\)", "int sym_call(struct symbol *self)", P, dflt="0",
             rules=[Rule("D7.call-through-pointer", r"return\s+\(\*handle\)\(args\.\.\.\);", "return nitro_call_symbol(self->handle);")], must_fire=["D7.call-through-pointer"]))
